@@ -229,7 +229,7 @@ func c17GenMQTT(rng *sim.Rand, sc *c17Scenario) {
 	}
 	withDel := rng.Bool(0.5)
 	if withDel && rng.Bool(0.45) {
-		c17GenMQTTEvict(rng, sc)
+		c17GenMQTTEvict(rng, sc, rng.Bool(0.3))
 		return
 	}
 	pool := sc.Cap + rng.Pick(0, 1, 1, 2)
@@ -300,7 +300,11 @@ func c17GenMQTT(rng *sim.Rand, sc *c17Scenario) {
 // (same instant up to a drawn jitter); later connections with fresh ids arrive
 // until the pool exceeds the cap. Everything lingers and pings, so the final
 // roll call sees who is served at the same time.
-func c17GenMQTTEvict(rng *sim.Rand, sc *c17Scenario) {
+//
+// echo = true: no admin request; the victim's first connection has
+// CleanSession set and ends at T, so that the broker itself removes the stored
+// session and the delete watch reports that removal while the id comes back.
+func c17GenMQTTEvict(rng *sim.Rand, sc *c17Scenario, echo bool) {
 	sc.Cap = rng.Pick(1, 2, 2, 2, 3, 3, 4)
 	T := int64(rng.Pick(1, 10, 1000, 100000, 1000000))
 	// the CONNECT packet of the harness client (client id "cN") has 16 bytes
@@ -329,13 +333,19 @@ func c17GenMQTTEvict(rng *sim.Rand, sc *c17Scenario) {
 	}
 	id := func(i int) string { return fmt.Sprintf("c%d", i) }
 	// the victim's first connection
-	sc.MClients = append(sc.MClients, c17MClient{Ops: []c17MOp{{GapUs: int64(rng.Pick(0, 0, 1)), ID: id(0), HoldUs: int64(rng.Pick(0, 10, 2000000)), Pings: rng.Pick(0, 0, 1, 2), End: end()}}})
+	if echo {
+		sc.MClients = append(sc.MClients, c17MClient{Ops: []c17MOp{{ID: id(0), Clean: true, HoldUs: T + jit(), End: rng.PickStr("disconnect", "disconnect", "close", "half", "reset")}}})
+	} else {
+		sc.MClients = append(sc.MClients, c17MClient{Ops: []c17MOp{{GapUs: int64(rng.Pick(0, 0, 1)), ID: id(0), HoldUs: int64(rng.Pick(0, 10, 2000000)), Pings: rng.Pick(0, 0, 1, 2), End: end()}}})
+	}
 	for i := 1; i <= pre; i++ {
 		sc.MClients = append(sc.MClients, c17MClient{Ops: []c17MOp{{GapUs: int64(rng.Pick(0, 0, 1)), ID: id(i), HoldUs: int64(rng.Pick(0, 10, 1000)), Pings: rng.Pick(0, 1, 2), End: end()}}})
 	}
 	// the delete(s)
-	sc.MAdmin = append(sc.MAdmin, c17MDel{GapUs: T + jit(), ID: id(0)})
-	if rng.Bool(0.3) {
+	if !echo {
+		sc.MAdmin = append(sc.MAdmin, c17MDel{GapUs: T + jit(), ID: id(0)})
+	}
+	if !echo && rng.Bool(0.3) {
 		sc.MAdmin = append(sc.MAdmin, c17MDel{GapUs: int64(rng.Pick(0, 0, 1, 10, 1000)), ID: id(rng.Intn(pre + 1))})
 	}
 	// the victim comes back (once or twice)
@@ -905,6 +915,7 @@ type c17MC struct {
 	lingering  bool
 	pingSent   []int // sequence numbers at which this connection's PINGREQs were sent
 	answered   int   // how many of them were answered with a PINGRESP
+	clean      bool
 }
 
 type c17M struct {
@@ -1149,7 +1160,15 @@ func (m *c17M) connect(n *simnet.Net, op c17MOp, who string) *c17MC {
 	}
 	scn := conn.(*simnet.Conn)
 	conn.SetDeadline(time.Now().Add(c17Day))
-	c := &c17MC{sid: scn.ID, id: op.ID, state: "sent", conn: conn}
+	c := &c17MC{sid: scn.ID, id: op.ID, state: "sent", conn: conn, clean: op.Clean}
+	for _, d := range m.conns {
+		if d.id == op.ID && d.clean && d.state == "accepted" {
+			// the removal of d's session is (or will be) reported by the delete
+			// watch, possibly while this connection is being set up or later
+			r.Probe("mqtt.reconnect_of_clean_session_id")
+			break
+		}
+	}
 	def := m.definite()
 	for _, d := range def {
 		if d == op.ID {
